@@ -54,16 +54,81 @@ pub fn pipeline(ctx: Option<&Ctx>, text: &str, run_checker: bool) -> Result<Stag
     if !run_checker {
         return Ok(Stage::Accepted);
     }
+    // A program without applications and without definitions gives the checker nothing to loop
+    // on (no beta steps, no unfolding): an abort while checking it is a violation. Otherwise
+    // divergence may be written in the program, and an abort is inconclusive.
     if let Some(ctx) = ctx {
-        ctx.announce(false, None, &input);
+        ctx.announce(cannot_diverge(&term), None, &input);
     }
-    match catch(|| crate::type_checker::type_check(None, text, &term, &mut vec![], &mut vec![]).map(|_| ())) {
+    // The result is rendered as `gram check` would print it.
+    match catch(|| crate::type_checker::type_check(None, text, &term, &mut vec![], &mut vec![]).map(|(elaborated, ty)| { let _n = format!("{elaborated}").len() + format!("{ty}").len(); })) {
         Err(p) => Err(Failure::new(format!("type_check panicked: {p}"), input).with_sig("panic")),
         Ok(Err(errs)) => {
             check_errors("type_check", &errs, &input)?;
             Ok(Stage::TypeErr)
         }
         Ok(Ok(())) => Ok(Stage::Accepted),
+    }
+}
+
+/// No application and no definition group anywhere in the term.
+fn cannot_diverge(t: &crate::term::Term) -> bool {
+    use crate::term::Variant as V;
+    match &t.variant {
+        V::Application(..) | V::Let(..) => false,
+        V::Lambda(_, _, a, b) | V::Pi(_, _, a, b) => cannot_diverge(a) && cannot_diverge(b),
+        V::Sum(a, b) | V::Difference(a, b) | V::Product(a, b) | V::Quotient(a, b) | V::LessThan(a, b) | V::LessThanOrEqualTo(a, b) | V::EqualTo(a, b) | V::GreaterThan(a, b) | V::GreaterThanOrEqualTo(a, b) => {
+            cannot_diverge(a) && cannot_diverge(b)
+        }
+        V::Negation(a) => cannot_diverge(a),
+        V::If(a, b, c) => cannot_diverge(a) && cannot_diverge(b) && cannot_diverge(c),
+        _ => true,
+    }
+}
+
+/// A term without applications and definitions, rich in omitted annotations, conditionals and
+/// variables: everything the checker does on it is unification of holes.
+fn gen_hole_puzzle(ch: &mut Ch, depth: usize, scope: &mut Vec<String>, counter: &mut usize) -> String {
+    let leaf = |ch: &mut Ch, scope: &Vec<String>| -> String {
+        if !scope.is_empty() && ch.chance(3, 4) {
+            scope[ch.pick(scope.len())].clone()
+        } else {
+            ["1", "true", "int", "bool", "0", "false"][ch.pick(6)].to_owned()
+        }
+    };
+    if depth == 0 {
+        return leaf(ch, scope);
+    }
+    match ch.pick(10) {
+        0..=3 => {
+            *counter += 1;
+            let name = format!("{}{}", ["x", "y", "w", "é"][*counter % 4], *counter);
+            let ann = match ch.pick(6) {
+                0 => Some("int".to_owned()),
+                1 => Some("_".to_owned()),
+                2 if !scope.is_empty() => Some(scope[ch.pick(scope.len())].clone()),
+                _ => None,
+            };
+            scope.push(name.clone());
+            let body = gen_hole_puzzle(ch, depth - 1, scope, counter);
+            scope.pop();
+            match ann {
+                Some(a) => format!("(({name} : {a}) => {body})"),
+                None => format!("({name} => {body})"),
+            }
+        }
+        4..=7 => {
+            let c = if !scope.is_empty() && ch.chance(1, 4) { scope[ch.pick(scope.len())].clone() } else { ["true", "false"][ch.pick(2)].to_owned() };
+            let a = gen_hole_puzzle(ch, depth - 1, scope, counter);
+            let b = gen_hole_puzzle(ch, depth - 1, scope, counter);
+            format!("(if {c} then {a} else {b})")
+        }
+        8 => {
+            let a = gen_hole_puzzle(ch, depth - 1, scope, counter);
+            let b = leaf(ch, scope);
+            format!("({a} {} {b})", ["+", "<", "*", "=="][ch.pick(4)])
+        }
+        _ => leaf(ch, scope),
     }
 }
 
@@ -223,6 +288,19 @@ fn damaged_case(ctx: &Ctx, ch: &mut Ch) -> Outcome {
 }
 
 fn checker_case(ctx: &Ctx, ch: &mut Ch) -> Outcome {
+    if ch.chance(1, 2) {
+        let depth = 2 + ch.pick(5);
+        let mut counter = 0;
+        let text = gen_hole_puzzle(ch, depth, &mut vec![], &mut counter);
+        if text.len() > 1500 {
+            ctx.class("hole puzzle: longer than 1500 bytes, skipped");
+            return Ok(());
+        }
+        let stage = pipeline(Some(ctx), &text, true)?;
+        ctx.class("hole puzzle (no application, no definition: the checker cannot be made to loop)");
+        classify(ctx, stage, &text);
+        return Ok(());
+    }
     let fuel = 1 + ch.pick(4);
     let cfg = SynCfg { paren_16: 1, ..SynCfg::default() };
     let mut g = SynGen::new(ch, cfg, &[]);
@@ -312,7 +390,7 @@ pub fn def(tier: Tier) -> CheckDef {
     CheckDef {
         id: "C14",
         level: "exploration",
-        rule: "library stages under catch_unwind in worker processes (an abort or hang is attributed to the announced case): proptest-generated Unicode strings, token soups and character-damaged sentences through tokenize -> parse -> type_check; every token string up to length 4/5 over the 28 kinds through parse (exhaustive); sentences with token deletions / insertions / substitutions, every prefix, doubled operators, dropped closing brackets, and unbalanced brackets of depth 1-200; scoping-valid mostly ill-typed generated programs through the checker; and `gram check` on files of arbitrary bytes (invalid UTF-8, empty, soups, damaged sentences, nesting up to 1000); oracle = no panic, Ok or a non-empty list of diagnostics that all start with [Error], CLI: exit 0 with the result on stdout and empty stderr, or exit 1 with empty stdout and [Error] on stderr; non-trivial = the input tokenizes (reaches the parser or the checker); distinct by text",
+        rule: "library stages under catch_unwind in worker processes (an abort or hang is attributed to the announced case): proptest-generated Unicode strings, token soups and character-damaged sentences through tokenize -> parse -> type_check; every token string up to length 4/5 over the 28 kinds through parse (exhaustive); sentences with token deletions / insertions / substitutions, every prefix, doubled operators, dropped closing brackets, and unbalanced brackets of depth 1-200; scoping-valid mostly ill-typed generated programs through the checker; and `gram check` on files of arbitrary bytes (invalid UTF-8, empty, soups, damaged sentences, nesting up to 1000); oracle = no panic, Ok or a non-empty list of diagnostics that all start with [Error], CLI: exit 0 with the result on stdout and empty stderr, or exit 1 with empty stdout and [Error] on stderr; non-trivial = the input tokenizes (reaches the parser or the checker); distinct by text; in the checker part half of the programs are `hole puzzles` (lambdas with omitted annotations, conditionals, variables; no application and no definition), on which an abort of the checker or of printing its result is a violation, since such a program gives the checker nothing to loop on",
         assumptions: vec![
             "an abort or timeout inside type_check is counted as inconclusive (divergent computation written in the program is allowed); inside tokenize / parse it is a violation",
             "nesting deeper than about 3000 parentheses exhausts the CLI's 16 MiB stack; the CLI part stays at depth <= 1000",
